@@ -1,7 +1,23 @@
-(* Properties_C05.v -- placeholder until FsModel lands. *)
-From LCDB Require Import Base LogFormat LogFormatClosed.
+(* Properties_C05.v -- C05: after a crash at any instant recovery succeeds and yields the
+   in-order application of the issued batches minus at most a tail of each log segment.
+   Record-level model FsModel.v, proofs FsProofs.v.  Covers every trace accepted by
+   [wf_protocol]; batches of logs below the recovered log_number are [flushed]. *)
+From LCDB Require Import Base LogFormat LogFormatClosed FsModel FsProofs.
+Local Open Scope N_scope.
+
 Theorem C05_log_cut_is_record_prefix : forall rs n,
   Forall (fun r => wf_bytes r = true) rs -> (n <= length (write_log rs))%nat ->
   exists k, read_log (firstn n (write_log rs)) = map Rec (firstn k rs).
 Proof. exact read_cut_prefix. Qed.
 Print Assumptions C05_log_cut_is_record_prefix.
+
+Theorem C05_recovery_total_and_tail_only : forall tr, wf_protocol tr = true ->
+  forall p img, crash_image (firstn p tr) img -> iget img FCurrent <> None ->
+  exists s, recover img = Some s /\ per_segment_prefix (firstn p tr) s /\
+    (forall n b, In b (log_batches (firstn p tr) n) -> n < r_log s -> flushed (firstn p tr) b).
+Proof. exact FsProofs.C05_recovery_total_and_tail_only. Qed.
+Print Assumptions C05_recovery_total_and_tail_only.
+
+Theorem C05_rep_images_sound : forall tr img, In img (rep_images tr) -> crash_image tr img.
+Proof. exact rep_images_sound. Qed.
+Print Assumptions C05_rep_images_sound.
